@@ -681,7 +681,10 @@ class Sim:
         finished = set(rows)
         if self.resub and self.epoch > 0:
             pass
-        oracle_batch.check_batch(self.jobs, self.groups, names, cfg, txt, run, script, self.outname, finished if not self.rows_unknown else None, lambda k, t: self.viol("C07", k, t))
+        eff = self.jobs
+        if self.resub and self.epoch > 0:
+            eff = {n: dict(j, blocked_by=self.cur_blockers(n)) for n, j in self.jobs.items()}
+        oracle_batch.check_batch(eff, self.groups, names, cfg, txt, run, script, self.outname, finished if not self.rows_unknown else None, lambda k, t: self.viol("C07", k, t))
         if inj == "garbage":
             if r is not None:
                 r["sb_fail"] += 1
@@ -1429,9 +1432,9 @@ class Sim:
         self.final = final
         self.missing = missing
         canceled_run = self.cancel_started is not None and last and last["canceled"]
-        if self.ff and not canceled_run and not scen.get("cycle"):
+        if self.ff_now and not canceled_run and not scen.get("cycle") and self.cancel_started is None:
             self.final_ff(final, missing, complete, placed)
-        elif not self.ff or scen.get("cycle"):
+        elif not self.ff or scen.get("cycle") or (not self.ff_now and self.cancel_started is None):
             self.final_faulty(final, missing, complete)
         if final is not None and missing is not None:
             self.final_tally(final, missing)
